@@ -51,13 +51,17 @@ Record sop := mkSop { s_store : nat; s_op : op }.
 Definition upd (st : nat -> list nat) (k : nat) (v : list nat) : nat -> list nat :=
   fun j => if Nat.eqb j k then v else st j.
 
-(* cf = the configuration each store object was constructed with; st = the verified-bucket cache of each object *)
+(* which cache object k reads and writes: its own (`self._verified_buckets = set()` in __init__), or - when the source
+   keeps the set at class or module level - the one all objects of the process share (re-translated at every run) *)
+Definition cache_slot (k : nat) : nat := if String.eqb s3_verified_scope "object" then k else O.
+
+(* cf = the configuration each store object was constructed with; st = the verified-bucket cache of each slot *)
 Fixpoint stores (cf : nat -> config) (st : nat -> list nat) (ops : list sop) : list chunk_run * (nat -> list nat) :=
   match ops with
   | [] => ([], st)
   | o :: t =>
-      let '(g, vs') := session_op (cf (s_store o)) (st (s_store o)) (s_op o) in
-      let '(gs, st') := stores cf (upd st (s_store o) vs') t in (g :: gs, st')
+      let '(g, vs') := session_op (cf (s_store o)) (st (cache_slot (s_store o))) (s_op o) in
+      let '(gs, st') := stores cf (upd st (cache_slot (s_store o)) vs') t in (g :: gs, st')
   end.
 
 Definition fresh : nat -> list nat := fun _ => [].
@@ -94,11 +98,11 @@ Fixpoint stores_wire (cf : nat -> config) (st : nat -> list nat) (hist : list so
   | [] => []
   | o :: t =>
       let k := s_store o in
-      let '(g, vs') := session_op (cf k) (st k) (s_op o) in
+      let '(g, vs') := session_op (cf k) (st (cache_slot k)) (s_op o) in
       L [of_result (g_result g); of_nat (g_obj_requests g); of_nat (g_bucket_requests g); of_nats vs';
          of_result (spec_op (cf k) (on_store k hist) (s_op o));
          of_bool (shown (cf k) (on_store k hist) (o_id (s_op o)))]
-      :: stores_wire cf (upd st k vs') (hist ++ [o]) t
+      :: stores_wire cf (upd st (cache_slot k) vs') (hist ++ [o]) t
   end.
 
 Definition wire_97 (x : sx) : sx :=
